@@ -23,6 +23,101 @@ CLAIMED = {
              "modes only (threaded modes: C18).",
         design="DESIGN.md §3 C01",
         technique="Lean 4 proof (invariant by induction over buffer operations) + model/code correspondence + sanitizer oracle"),
+    "C03": dict(
+        engine="frame",
+        text="Lean 4 proof: decideBody (Transfer-Encoding/Content-Length decision of parse_connection_headers) vs RFC 9112 s6.3 for all "
+             "field lists and levels, every curated defect class rejected; chunk decoder decode(encode) = id with exact consumption "
+             "for every admissible chunking; split independence of the whole connection automaton for every segmentation; pipelined "
+             "valid streams framed exactly as generated and as a strict reference framer does; safety invariant 'no re-parse after "
+             "discard / error / close' over all transition sequences. Tie: regenerated thresholds, daemon + white-box correspondence "
+             "(pipelines x 18 defect kinds x splits x 7 levels x handler timings), independent Python reference framer.",
+        note="Request heads restricted to CanonicalHead (strict splitter; the head parser is C02); in the theorems the application takes all "
+             "offered bytes and replies at the final call (partial takes by correspondence); no-space paths oracle-only. Trusted: Lean "
+             "kernel, standard axioms, harness/h_conn03.c, h_chunk.c.",
+        design="DESIGN.md §3 C02/C03", technique="Lean 4 proof + regenerated thresholds + model/code correspondence + reference framer oracle"),
+    "C09": dict(
+        engine="daemon",
+        text="Lean 4 proof: accounting invariant (connections = |active|+|suspended|+|cleanup| <= limit; per-address counter = number of "
+             "connections from that address incl. the new list <= per-IP limit) for every history incl. every failure exit of admission; "
+             "capacity restored; at stop every socket closed exactly once and start/close notifications paired; response refcount = "
+             "multiset of holders, free callback exactly once exactly at zero, no use after. Tie: bounded-exhaustive + random histories "
+             "against the real daemon (white-box list lengths and per-IP tree), allocation-failure enumeration, LeakSanitizer, log oracle.",
+        note="HTTP exchange abstracted to scripted behaviours; accept4 wrapper, thread-per-connection and thread-creation failure are in the "
+             "model/proofs but not in the correspondence; internal-thread modes oracle-only (thorough); tsearch abstracted to a map.",
+        design="DESIGN.md §3 C09", technique="Lean 4 proof (invariants + conservation laws over step/run) + scripted differential run + oracle"),
+    "C10": dict(
+        engine="tmo",
+        text="Lean 4 proof over a model of the timeout logic (close decision / wait with uint64 wrap and the 5 s jump-back rule; normal, "
+             "manual, suspended, cleanup, eready lists in pointer order; override, suspend/resume, new-connection processing, "
+             "MHD_get_timeout64, select and epoll rounds): 25-field invariant incl. sortedness for every history with a monotone clock; "
+             "round soundness (closed => idle > T, never suspended) for all states; round completeness for epoll and select; hint <= "
+             "earliest deadline + 100 ms and 0 when pending; override immediate; resume restarts. Tie: line-by-line correspondence incl. "
+             "white-box list dump under a virtual clock (bounded-exhaustive + random, select + epoll), independent idle-time oracle.",
+        note="Single-threaded external polling only; activity = received bytes; backward clock jumps at function level only; behaviour "
+             "flags probed from the real code each run (a regression of a repaired defect flips a flag and breaks `current_is_repaired`).",
+        design="DESIGN.md §3 C10", technique="Lean 4 proof (invariant by induction over operations) + model/code correspondence + oracle"),
+    "C13": dict(
+        engine="nonce",
+        text="Lean 4 proof over a model of digestauth.c's nonce-nc map, any table size, any sequence of registrations and presentations "
+             "(= all interleavings under nnc_lock): (nc,nmask) refines a set of used counts; each (nonce,count) accepted at most once per "
+             "registration; acceptance exactly 'new, non-zero, below UINT32_MAX-64, <= 64 behind the highest' (jumps 63/64/65); never-"
+             "issued or evicted nonces never accepted; expired / above max_nc => stale; slot-reuse policy as coded; no out-of-buffer read. "
+             "Tie: regenerated constants, bounded-exhaustive (584k seq quick) + random correspondence on check_nonce_nc, "
+             "calculate_add_nonce, get_nonce_timestamp, fast_simple_hash, MHD_digest_auth_check3; independent set-based oracle.",
+        note="Nonce derivation opaque (C12); presented nonces NUL-free (guaranteed by the request parser; witness theorem included); the "
+             "locking itself is C18.",
+        design="DESIGN.md §3 C13", technique="Lean 4 proof (refinement to a set) + model/code correspondence + reference oracle"),
+    "C14": dict(
+        engine="auth",
+        text="Lean 4 proof over a model of gen_auth.c / basicauth.c / the digestauth.c info API: parse(render) = meaning for every well-formed "
+             "Digest parameter list in every rendering (order, case, OWS, token/quoted-string, escapes, extension parameters, empty "
+             "elements); algorithm/qop/userhash invariant under quoting; info-API structures depend only on the meaning; Basic round trip, "
+             "canonical-base64-only, exact token68 extraction; no access beyond str[str_len]. Tie: regenerated if-chains/tables/enums + "
+             "1.3e5 (quick) case correspondence, bounded-exhaustive + random, RFC 7616/7617 reference oracle.",
+        note="Precondition: one readable byte behind the header value (the parser reads str[str_len]; it is the in-buffer NUL). Info-API "
+             "theorem under Elem.infoWf (escaped nc <= 16 raw bytes, username* unescaped with complete pct-encoding).",
+        design="DESIGN.md §3 C14", technique="Lean 4 proof + regenerated constants + model/code correspondence + RFC reference oracle"),
+    "C17": dict(
+        engine="str",
+        text="Lean 4 proofs over a model of mhd_str.c for all inputs: decimal/hex parse and print are exact inverses with exact overflow and "
+             "short-buffer detection; hex<->bin, percent-decoding (strict/lenient, copying = in place), quote/unquote/quoted comparison, "
+             "base64 (RFC 4648, canonical padding), caseless comparison and has_token equal short reference specifications; none of them, "
+             "nor remove_token, reads beyond the stated length or writes beyond the stated size. remove_token's output and remove_tokens "
+             "are tied by correspondence only (partial). Tie: exhaustive (8/16-bit domains), bounded-exhaustive (strings <= 4/5 over 18 "
+             "bytes x all buffer sizes) and random correspondence under ASan, Python references.",
+        note="Tables/constants regenerated from the source; remove_token output characterisation and remove_tokens not proved.",
+        design="DESIGN.md §3 C17", technique="Lean 4 proof + correspondence + reference oracle"),
+    "C18": dict(
+        engine="locks",
+        text="PARTIAL by nature. Proved (decide +kernel over the whole clang-AST-regenerated lock table, lifted by lemmas): lock-order graph "
+             "acyclic => no wait cycle in an abstract thread/mutex model; no lock held while blocking; lockset discipline for shared "
+             "fields except two flags (kernel-checked witness that the full statement is false: F18b); writes under mutex; callbacks "
+             "unlocked; stop sequencing and stop state machines (termination, every connection notified once; thread-per-connection exit "
+             "path). Validated dynamically, not proved: TSan stress (client threads x select/poll/epoll x pool/thread-per-connection, "
+             "add_connection, cross-thread resume, shared responses, digest auth, stop under load with watchdog).",
+        note="Memory-order effects, libc/GnuTLS, scheduler liveness outside the model; dynamic part schedule-dependent. Known finding F18b "
+             "(data race on connection->suspended in thread-per-connection mode) is reported as KNOWN-FINDING.",
+        design="DESIGN.md §3 C18", technique="Lean 4 decide +kernel over a clang-AST-extracted table + abstract thread model + TSan stress with watchdog"),
+    "C19": dict(
+        engine="ws",
+        text="Lean 4 proof over a model of mhd_websocket.c: split independence of whole sessions for all states and chunk lists; no "
+             "out-of-buffer access or non-termination for all states and inputs; each RFC 6455 violation class yields the prescribed "
+             "status and an invalid stream; round trip for single-frame text/binary, ping/pong and close for all lengths and keys. "
+             "Fragmented round trip by correspondence only (partial). Tie: regenerated enums, exhaustive header-pair and UTF-8 "
+             "comparison, structured random streams x splits, independent RFC 6455 reference.",
+        note="Round-trip part partial (fragmentation); accept-header helper oracle-only; alignment UB observed by a separate UBSan run.",
+        design="DESIGN.md §3 C19", technique="Lean 4 proof + model/code correspondence + RFC 6455 reference oracle"),
+    "C20": dict(
+        engine="upg",
+        text="Lean 4 proofs over a model of the upgrade path (queue_response preconditions, execute_upgrade, mark_app_closed, "
+             "resume_suspended_connections, cleanup, close_all_connections) for every history and read/write schedule: byte conservation "
+             "(extra + application reads + socket = bytes after the head, for a prefix-stable parser); the daemon's wire output is exactly "
+             "the 101 head; no daemon I/O after hand-over; exactly one completed / conn-close / socket close, released in the round "
+             "after CLOSE or at stop; an unmet precondition => refusal with unchanged state, ordinary response then accepted. Tie: all "
+             "2-way splits x close timings x select/epoll x arenas, random 3-way, multi-connection, per-fd I/O interposition, log oracle.",
+        note="TLS forwarding (process_urh/GnuTLS) and thread-per-connection outside the model; parser and ordinary reply bytes are "
+             "parameters (C02/C04).",
+        design="DESIGN.md §3 C20", technique="Lean 4 proof + model/code correspondence (per-fd I/O interposition) + log oracle"),
     "C08": dict(
         engine="pool",
         text="Lean 4 theorems over an executable model of memorypool.c (every op, every size_t argument, every op "
